@@ -51,7 +51,7 @@ def decide(fn, pre, good, *, inst, harness, replay, regions=(), twin=None, max_d
     for p in paths:
         if p.kind in ("cut", "timeout"):
             res["cut" if p.kind == "cut" else "timeouts"] += 1
-            if not allow_cut:
+            if not allow_cut and (p.kind == "timeout" or eng.hard_truncated or not eng.soft_reasons):
                 res["errors"].append(f"bound exceeded on a feasible path ({p.kind}); nothing claimed for {inst}")
             continue
         if p.kind == "exc":
@@ -105,7 +105,13 @@ def decide(fn, pre, good, *, inst, harness, replay, regions=(), twin=None, max_d
     if not paths:
         res["errors"].append(f"no feasible path for {inst} (vacuous)")
     if eng.truncated:
-        res["errors"].append("path budget exhausted")
+        cut_paths = [p for p in paths if p.kind == "cut"]
+        if eng.hard_truncated or (cut_paths and not eng.soft_reasons):
+            res["errors"].append("path budget exhausted")
+        else:
+            # the model of the engine is incomplete here (not a budget chosen too small): reported as cut, nothing claimed for the missing part
+            res["cut"] = res.get("cut", 0) + 1
+            res.setdefault("notes", []).append("exploration incomplete: " + "; ".join(sorted(eng.soft_reasons)))
     st = eng.stats()
     res["solver_time"] = st["solver_time_s"]
     res["feasibility_queries"] = st["feasibility_queries"]
